@@ -79,6 +79,14 @@ theorem print_escapes (tbl : Table) (oblig : List Bytes) (mode : Mode) (dirs : L
   obtain ⟨r, h1, h2⟩ := printBytesWith_noCancel tbl oblig mode dirs v out hmode hnc hout
   exact ⟨r, h1, h2, h2 ▸ htmlEscape_safe r⟩
 
+/- non-vacuity on a two-entry table: `t` (truncate, does not cancel) is escaped, `i` (id, cancels) is not -/
+example : printBytesWith [⟨[116], [1, 2], false, sDirectiveTruncate⟩, ⟨[105], [0], true, sDirectiveNoAutoescape⟩] []
+    .on [([116], [.int 2, .bool false])] [60, 97, 62] = .ok [38, 108, 116, 59, 97] := by decide
+example : noCancel [⟨[116], [1, 2], false, sDirectiveTruncate⟩, ⟨[105], [0], true, sDirectiveNoAutoescape⟩]
+    [([116], [.int 2, .bool false])] = true := by decide
+example : printBytesWith [⟨[116], [1, 2], false, sDirectiveTruncate⟩, ⟨[105], [0], true, sDirectiveNoAutoescape⟩] []
+    .on [([105], [])] [60, 97, 62] = .ok [60, 97, 62] := by decide
+
 /-- with no directive at all the written bytes are the escaped value -/
 theorem print_plain (tbl : Table) (mode : Mode) (v : Bytes) (hmode : mode ≠ .off) :
     printBytesWith tbl [] mode [] v = .ok (htmlEscape v) := by
